@@ -581,3 +581,435 @@ EDITS["C17-D"][2] = (NODE,
             self._sent_answer_ids.add(
                 (origin_host, message.header.end_to_end_identifier))
 ''')
+
+
+# ------------------------------------------------------------------------------------------------
+# re-expressed after the second audit round's repairs (section 15 of DESIGN.md)
+_DEL_NEW = '''        try:
+            del self._peer_waiting_answer[waiting_conn_ident][message_id]
+        except KeyError:
+            # removed since the search above: the connection has gone away,
+            # or another thread has submitted an answer for the same request
+            raise NotRoutable(
+                f"No peer is waiting (any more) for an answer with ID "
+                f"{hex(message.header.hop_by_hop_identifier)}") from None
+
+'''
+EDITS["C07-B"] = [(NODE, _DEL_NEW + '''        conn = self.connections.get(waiting_conn_ident)
+        if conn is None:
+''', '''        conn = self.connections.get(waiting_conn_ident)
+        # The pending request record is released by `send_message` once the
+        # answer has actually been queued; releasing it already here made a
+        # request unanswerable for good if its connection was only
+        # temporarily not accepting messages.
+        if conn is None:
+            self._peer_waiting_answer[waiting_conn_ident].pop(
+                message_id, None)
+''')]
+EDITS["C07-H"] = [(NODE, _DEL_NEW, '''        # The node thread may remove the connection, and with it the whole
+        # record of the peer, while an application thread is still routing
+        # its answer; that must end as "not routable" below, not as KeyError.
+        self._peer_waiting_answer.get(
+            waiting_conn_ident, {}).pop(message_id, None)
+
+''')]
+EDITS["C09-J"] = [(NODE, _DEL_NEW, '''        # the connection may have been removed, and its table with it, since
+        # the snapshot was taken; that is reported as not routable below
+        # rather than as a KeyError
+        waiting = self._peer_waiting_answer.get(waiting_conn_ident, {})
+        waiting.pop(message_id, None)
+
+''')]
+EDITS["C09-E"] = [(NODE, _DEL_NEW, ""), (NODE,
+'''        if (not message.header.is_request and
+                conn.ident in self._peer_waiting_answer and
+                message_id in self._peer_waiting_answer[conn.ident]):
+            # cleanup in case someone is sending messages directly without
+            # using _route_answer
+            del self._peer_waiting_answer[conn.ident][message_id]
+''', '''        if not message.header.is_request:
+            # the pending request is marked as answered here and only here,
+            # regardless of whether the answer went through `route_answer` or
+            # is being sent directly
+            self._peer_waiting_answer.get(
+                conn.ident, {}).pop(message_id, None)
+''')]
+_PRE_OLD = '''        # rfc6733, 5.5.4, check for T flag and reject if already processed
+        if (origin_host is not None and msg.header.is_request and
+                msg.header.is_retransmit and
+                origin_host in self._sent_answers and
+                msg.header.end_to_end_identifier in self._sent_answers[origin_host]):
+            self.logger.warning(
+                f"{conn} message is a retransmission of an already handled "
+                f"request, rejecting it")
+            err = self._generate_answer(conn, msg)
+            # Spec doesn't say what error code to use?
+            err.result_code = constants.E_RESULT_CODE_DIAMETER_UNABLE_TO_COMPLY
+            err.error_messge = "Duplicate request detected"
+            self.send_message(conn, err)
+            return
+
+        if msg.header.is_request and self.validate_received_request_avps:
+            failed_avp = validate_message_avps(msg)
+            if failed_avp:
+                self.logger.warning(f"{conn} message failed AVP validation")
+                err = self._generate_answer(conn, msg)
+                err.result_code = constants.E_RESULT_CODE_DIAMETER_MISSING_AVP
+                err.error_message = "Mandatory AVPs missing"
+                err.failed_avp = FailedAvp(additional_avps=failed_avp)
+                self.send_message(conn, err)
+                return
+
+'''
+EDITS["C07-C"] = [(NODE, _PRE_OLD, '''        if msg.header.is_request and self._reject_request(conn, msg, origin_host):
+            return
+
+'''), (NODE, '''    def _receive_app_request(self, conn: PeerConnection, message: _AnyMessageType):
+''', '''    def _reject_request(self, conn: PeerConnection, msg: _AnyMessageType,
+                        origin_host: bytes | None) -> bool:
+        """Run the pre-dispatch checks for a received request.
+
+        Returns:
+            True if the request has been answered with an error and must not
+                be processed any further.
+        """
+        # rfc6733, 5.5.4, check for T flag and reject if already processed
+        if (origin_host is not None and msg.header.is_retransmit and
+                origin_host in self._sent_answers and
+                msg.header.end_to_end_identifier in self._sent_answers[origin_host]):
+            self.logger.warning(
+                f"{conn} message is a retransmission of an already handled "
+                f"request, rejecting it")
+            err = self._generate_answer(conn, msg)
+            # Spec doesn't say what error code to use?
+            err.result_code = constants.E_RESULT_CODE_DIAMETER_UNABLE_TO_COMPLY
+            err.error_messge = "Duplicate request detected"
+            self.send_message(conn, err)
+
+        if self.validate_received_request_avps:
+            failed_avp = validate_message_avps(msg)
+            if failed_avp:
+                self.logger.warning(f"{conn} message failed AVP validation")
+                err = self._generate_answer(conn, msg)
+                err.result_code = constants.E_RESULT_CODE_DIAMETER_MISSING_AVP
+                err.error_message = "Mandatory AVPs missing"
+                err.failed_avp = FailedAvp(additional_avps=failed_avp)
+                self.send_message(conn, err)
+                return True
+
+        return False
+
+    def _receive_app_request(self, conn: PeerConnection, message: _AnyMessageType):
+''')]
+EDITS["C08-H"] = [(NODE, '''        except BaseException as e:
+            # also what is not an `Exception`''', '''        except NotRoutable as e:
+            # the peer that should get the message has gone away in the
+            # meantime; not a handling error and no reason for a stack trace
+            self.logger.warning(f"{conn} message could not be routed: {e}")
+
+        except BaseException as e:
+            # also what is not an `Exception`''')]
+EDITS["C10-J"] = [(NODE, '''        if dest_realm is not None:
+            realm_name = dest_realm.decode().lower()
+''', '''        if dest_realm:
+            realm_name = dest_realm.decode().lower()
+''')]
+EDITS["C11-G"][3:] = [(NODE, '''        self._half_ready_connections.pop(conn.ident, None)
+        # requests of this connection that will never be answered any more
+''', '''        self._half_ready_connections.pop(conn.ident, None)
+        self._connection_timeouts.pop(conn.ident, None)
+        # requests of this connection that will never be answered any more
+''')]
+EDITS["C12-B"] = [(NODE, '''        if peer and peer.connection is conn:
+            # unset so that a new connection may be made later; a connection''', '''        if peer:
+            # unset so that a new connection may be made later; a connection''')]
+EDITS["C12-D"] = [(NODE, '''    def _flag_connection_as_ready(self, conn: PeerConnection):
+''', '''    def _flag_peer_as_disconnected(self, peer: Peer, disconnect_reason: int):
+        # unset so that a new connection may be made later
+        peer.connection = None
+        if peer.disconnect_reason is not None:
+            # only set if not yet set
+            return
+        peer.disconnect_reason = disconnect_reason
+        peer.last_disconnect = int(time.time())
+
+    def _flag_connection_as_ready(self, conn: PeerConnection):
+'''), (NODE, '''            peer.connection = None
+            peer.last_disconnect = int(time.time())
+            # only set if not yet set
+            if peer.disconnect_reason is None:
+                peer.disconnect_reason = disconnect_reason
+''', '''            self._flag_peer_as_disconnected(peer, disconnect_reason)
+''')]
+EDITS["C13-E"] = [(NODE, '''        peer_socket = self.peer_sockets.pop(conn.ident, None)
+        if peer_socket:
+''', '''        peer_socket = self.peer_sockets.pop(conn.ident, None)
+        if peer_socket and conn.state != PEER_CLOSED:
+''')]
+EDITS["C13-I"] = [(NODE, '''        # may run on two threads at once for the same connection
+        self.connections.pop(conn.ident, None)
+''', '''        # only a connection that was usable can have been the last available
+        # one of an application
+        was_ready = conn.state in PEER_READY_STATES
+        # may run on two threads at once for the same connection
+        self.connections.pop(conn.ident, None)
+'''), (NODE, '''        self._peer_waiting_answer.pop(conn.ident, None)
+
+        # Check if this was the last available peer''', '''        self._peer_waiting_answer.pop(conn.ident, None)
+
+        if not was_ready:
+            # no need to walk the routing table for every refused, failed or
+            # half-open connection
+            self.logger.debug(f"{conn} removed")
+            return
+
+        # Check if this was the last available peer''')]
+_PRUNE_NEW = '''            cutoff = slot - self._maxage
+            oldest_slot = next(iter(self._slots))
+            while len(self._slots) > 0 and oldest_slot < cutoff:
+                self._slots.pop(oldest_slot)
+                if len(self._slots) > 0:
+                    oldest_slot = next(iter(self._slots))
+'''
+EDITS["C14-E"] = [(HELP, _PRUNE_NEW, '''            # slots are kept in insertion (i.e. chronological) order, forget the
+            # leading ones that have fallen out of the window
+            cutoff = slot - self._maxage
+            for oldest_slot in self._slots:
+                if oldest_slot >= cutoff:
+                    break
+                self._slots.pop(oldest_slot)
+''')]
+EDITS["C14-F"] = [(HELP, _PRUNE_NEW, '''            # slots are kept in insertion (i.e. chronological) order, drop from the
+            # oldest end until the first one that is still young enough
+            cutoff = slot - self._maxage
+            for old_slot in self._slots:
+                if old_slot >= cutoff:
+                    break
+                del self._slots[old_slot]
+''')]
+EDITS["C14-H"] = [(NODE, '''                    for pos in range(0, len(wakeups), 6):
+''', '''                    for pos in range(0, len(wakeups), 6 * 1024):
+''')]
+_AFTER_SEND = '''                with conn.write_lock:
+                    conn.remove_out_bytes(sent_bytes)
+                    self.connection_logger.debug(
+                        f"{conn} sent {sent_bytes} bytes, "
+                        f"{len(conn.write_buffer)} bytes remain")
+
+                    if (not conn.has_queued_messages and
+                            len(conn.write_buffer) == 0 and
+                            conn.state == PEER_CLOSING):
+                        self.connection_logger.debug(
+                            f"{conn} in CLOSING state and no more bytes to "
+                            f"send, closing socket")
+                        self.close_connection_socket(
+                            conn, DISCONNECT_REASON_CLEAN_DISCONNECT)
+'''
+EDITS["C15-A"] = [(NODE, _AFTER_SEND, '''                conn.remove_out_bytes(sent_bytes)
+                self.connection_logger.debug(
+                    f"{conn} sent {sent_bytes} bytes, "
+                    f"{len(conn.write_buffer)} bytes remain")
+
+                if (not conn.has_queued_messages and
+                        len(conn.write_buffer) == 0 and
+                        conn.state == PEER_CLOSING):
+                    self.connection_logger.debug(
+                        f"{conn} in CLOSING state and no more bytes to "
+                        f"send, closing socket")
+                    self.close_connection_socket(
+                        conn, DISCONNECT_REASON_CLEAN_DISCONNECT)
+'''), (PEER, '''        """Remove a given amount of bytes from outgoing buffer."""
+        self._write_buffer = self._write_buffer[sent_bytes:]
+''', '''        """Remove a given amount of bytes from outgoing buffer.
+
+        Takes `write_lock` by itself; the caller must not be holding it."""
+        remaining = self._write_buffer[sent_bytes:]
+        with self.write_lock:
+            self._write_buffer = remaining
+''')]
+EDITS["C15-E"] = [(NODE, _AFTER_SEND, '''                remaining_bytes = conn.remove_out_bytes(sent_bytes)
+                self.connection_logger.debug(
+                    f"{conn} sent {sent_bytes} bytes, "
+                    f"{remaining_bytes} bytes remain")
+
+                if (not conn.has_queued_messages and
+                        remaining_bytes == 0 and
+                        conn.state == PEER_CLOSING):
+                    self.connection_logger.debug(
+                        f"{conn} in CLOSING state and no more bytes to "
+                        f"send, closing socket")
+                    self.close_connection_socket(
+                        conn, DISCONNECT_REASON_CLEAN_DISCONNECT)
+'''), (PEER, '''    def remove_out_bytes(self, sent_bytes: int):
+        """Remove a given amount of bytes from outgoing buffer."""
+        self._write_buffer = self._write_buffer[sent_bytes:]
+''', '''    def remove_out_bytes(self, sent_bytes: int) -> int:
+        """Remove a given amount of bytes from outgoing buffer.
+
+        Takes care of holding the write lock, callers must not hold it.
+
+        Returns:
+            The amount of bytes that still remain in the outgoing buffer.
+        """
+        remaining = self._write_buffer[sent_bytes:]
+        with self.write_lock:
+            self._write_buffer = remaining
+        return len(remaining)
+''')]
+_WIN_NEW = '''            # answers are sent by application and connection threads alike:
+            # the window of an origin is created by exactly one of them
+            self._sent_answers.setdefault(
+                origin_host, deque(maxlen=self.retransmit_queue_size)).append(
+                message.header.end_to_end_identifier)
+'''
+EDITS["C17-B"] = [(NODE, _WIN_NEW, EDITS["C17-B"][0][2])]
+EDITS["C17-C"] = [(NODE, _WIN_NEW, EDITS["C17-C"][0][2])]
+EDITS["C17-D"][2] = (NODE, _WIN_NEW, '''            answers = self._sent_answers.setdefault(
+                origin_host, deque(maxlen=self.retransmit_queue_size))
+            if len(answers) == answers.maxlen:
+                # queue is full, the oldest identifier is about to be forgotten
+                self._sent_answer_ids.discard((origin_host, answers[0]))
+            answers.append(message.header.end_to_end_identifier)
+            self._sent_answer_ids.add(
+                (origin_host, message.header.end_to_end_identifier))
+''')
+EDITS["C17-I"] = [(NODE, '''        self._sent_answers: dict[str, deque[int]] = {}
+''', '''        self._sent_answers: dict[str, deque[int]] = {}
+        # The same identifiers once more as sets, one for each origin-host; a
+        # lookup in a deque of `retransmit_queue_size` entries is a linear
+        # scan for every request that arrives with the "T" flag set.
+        self._sent_answer_ids: dict[str, set[int]] = {}
+'''), (NODE, '''                origin_host in self._sent_answers and
+                msg.header.end_to_end_identifier in self._sent_answers[origin_host]):
+''', '''                msg.header.end_to_end_identifier in
+                self._sent_answer_ids.get(origin_host, ())):
+'''), (NODE, _WIN_NEW, '''            window = self._sent_answers.setdefault(
+                origin_host, deque(maxlen=self.retransmit_queue_size))
+            window_ids = self._sent_answer_ids.setdefault(origin_host, set())
+            if len(window) == window.maxlen:
+                # the oldest identifier is about to drop out of the window
+                window_ids.discard(window[0])
+            window.append(message.header.end_to_end_identifier)
+            window_ids.add(message.header.end_to_end_identifier)
+''')]
+EDITS["C17-J"] = [(NODE, _WIN_NEW, '''            # one window per host however the peer spells it: diameter
+            # identities are case-insensitive (rfc6733 4.3.1), `add_peer` and
+            # `receive_cer` keep them in lower case as well
+            origin_host = origin_host.lower()
+''' + _WIN_NEW)]
+EDITS["C18-B"] = [(NODE, '''                            if conn.state == PEER_CLOSED:
+                                self.close_connection_socket(
+                                    conn, DISCONNECT_REASON_CLEAN_DISCONNECT)
+                            elif (not conn.has_queued_messages and
+                                    len(conn.write_buffer) == 0 and
+                                    conn.state == PEER_CLOSING):
+                                # in this order: a message counts as queued
+                                # until the writer has put it into the buffer
+                                self.connection_logger.debug(
+                                    f"{conn} in CLOSING state and no more bytes "
+                                    f"to send, closing socket")
+''', '''                            if conn.state in (PEER_CLOSING, PEER_CLOSED):
+                                self.connection_logger.debug(
+                                    f"{conn} in {state_names.get(conn.state)} "
+                                    f"state, closing socket")
+''')]
+EDITS["C18-G"] = [(NODE, '''                            self.connection_logger.debug(
+                                f"interrupt from peer connection {conn_id}, "
+                                f"which has already gone away")
+''', '''                            self.connection_logger.debug(
+                                f"interrupt from peer connection {conn_id}, "
+                                f"which has already gone away")
+                            break
+''')]
+EDITS["C18-I"] = [(NODE, '''                    wakeups = os.read(self.interrupt_read, 6 * 1024)
+''', '''                    wakeups = os.read(self.interrupt_read, 4096)
+''')]
+EDITS["C18-K"] = [(NODE, '''            for conn in list(self.connections.values()):
+                if conn.state in PEER_READY_STATES:
+                    self.send_dpr(conn)
+                elif conn.state in (PEER_CONNECTING, PEER_CONNECTED):''', '''            dpr_sent = 0
+            for conn in list(self.connections.values()):
+                if conn.state in PEER_READY_STATES:
+                    self.send_dpr(conn)
+                    dpr_sent += 1
+                elif conn.state in (PEER_CONNECTING, PEER_CONNECTED):'''), (NODE, '''            abort_wait = False
+''', '''            # no DPR has gone out, no DPA to wait for: do not sit out the
+            # timeout for connections that never completed their CER/CEA
+            abort_wait = dpr_sent == 0
+''')]
+_CONN_NEW = '''            try:
+                conn = PeerConnection(peer.ip_addresses, peer.port,
+                                      PEER_SEND, self.interrupt_write)
+            except RuntimeError:
+                # not possible to start the connection's threads; nothing
+                # will ever refer to the socket again
+                peer_socket.close()
+                raise
+            conn.state = PEER_CONNECTING
+            conn.node_name = peer.node_name
+            conn.origin_host = self.origin_host
+'''
+EDITS["C19-D"] = [(NODE, '''        if peer.transport == PEER_TRANSPORT_TCP:
+            peer_socket = socket.socket(socket.AF_INET, socket.SOCK_STREAM)
+            peer_socket.setblocking(False)
+
+''' + _CONN_NEW, '''        # identical for both transports
+        conn = PeerConnection(peer.ip_addresses, peer.port,
+                              PEER_SEND, self.interrupt_write)
+        conn.state = PEER_CONNECTING
+        conn.node_name = peer.node_name
+        conn.origin_host = self.origin_host
+
+        if peer.transport == PEER_TRANSPORT_TCP:
+            peer_socket = socket.socket(socket.AF_INET, socket.SOCK_STREAM)
+            peer_socket.setblocking(False)
+
+'''), (NODE, '''            peer_socket = sctp.sctpsocket_tcp(socket.AF_INET)
+            peer_socket.setblocking(False)
+
+''' + _CONN_NEW, '''            peer_socket = sctp.sctpsocket_tcp(socket.AF_INET)
+            peer_socket.setblocking(False)
+
+''')]
+EDITS["C19-I"] = [(NODE, '''        self._peer_waiting_answer.pop(conn.ident, None)
+
+        # Check if this was the last available peer''', '''        unanswered = self._peer_waiting_answer.get(conn.ident)
+        if unanswered:
+            self.logger.info(
+                f"{conn} has gone with {len(unanswered)} requests still "
+                f"waiting for an answer from their application")
+            del self._peer_waiting_answer[conn.ident]
+
+        # Check if this was the last available peer''')]
+EDITS["C19-C"] = [(HELP, '''    def add_count(self, count: int):
+''', '''    def _expire(self, now: int):
+        """Forget counter values that are older than the maximum age."""
+        cutoff = now - self._maxage
+        while len(self._slots) > 0:
+            oldest_slot = next(iter(self._slots))
+            if oldest_slot >= cutoff:
+                break
+            self._slots.pop(oldest_slot)
+
+    def add_count(self, count: int):
+'''), (HELP, '''            self._slots[slot] += count
+
+''' + _PRUNE_NEW, '''            self._slots[slot] += count
+'''), (HELP, '''        with self._lock:
+            if since_seconds is None:
+                return sum(self._slots.values())
+            count = 0
+            cutoff = int(time.time()) - since_seconds
+''', '''        with self._lock:
+            now = int(time.time())
+            self._expire(now)
+            if since_seconds is None:
+                return sum(self._slots.values())
+            count = 0
+            cutoff = now - since_seconds
+'''), (HELP, '''        counts = [0] * len(cutoffs)
+        with self._lock:
+''', '''        counts = [0] * len(cutoffs)
+        with self._lock:
+            self._expire(now)
+''')]
